@@ -183,18 +183,29 @@ class ReadStand:
             self.sock.rst = True
         elif kind == "fin":
             self.sock.fin = True
-        elif kind == "finmid" and not self.bounds:
+        elif kind in ("finmid", "finbody") and not self.bounds:
             self.sock.fin = True
-        elif kind == "finmid":
+            kind = "fin"
+        elif kind in ("finmid", "finbody"):
             # the peer closes inside the last frame: drop its tail (if it is still unread at all)
             fid, a, b = self.bounds[-1]
             unread_from = self.sock.consumed
+            hs = F.hdr_struct(self.timecode).size
+            pay = (b - a) - hs
+            if kind == "finbody" and pay < 1:
+                kind = "finmid"                     # nothing but a header to cut
             if b - max(a, unread_from) >= 2 and unread_from <= a:
-                drop = max(1, (b - a) // 2)
+                if kind == "finbody":
+                    # header complete: no payload byte at all, or the payload cut short
+                    drop = pay if (pay < 2 or (fid + len(self.bounds)) % 2) else max(1, pay // 2)
+                else:
+                    drop = pay + max(1, hs // 2)    # inside the header
                 del self.sock.inbuf[len(self.sock.inbuf) - drop:]
                 self.partial_last = True
+            else:
+                kind = "fin"
             self.sock.fin = True
-        self.events.append({"a": "Cut", "kind": kind if not (kind == "finmid" and not self.partial_last) else "fin"})
+        self.events.append({"a": "Cut", "kind": kind})
 
     def sub(self, op: str, t: int):
         c = self.c
